@@ -74,8 +74,26 @@ func (p *Preprocessor) CFG(graph *cfg.CFG, funcDecl *ast.FuncDecl) *cfg.CFG {
 			p.splitBlockOnTrustedFuncs(graph, block, failureBlock)
 		}
 	}
+	// The case expressions of a tagged switch (`switch x { case y: }`) end two-successor blocks as
+	// well, but they are operands of the comparison `x == y` that markSwitchStatements synthesizes
+	// below, not branch conditions: canonicalizing them (e.g., stripping the negation of `case !c`
+	// and swapping the successors) would rewrite a different control flow.
+	rangeChildren, switchChildren, typeSwitchChildren := collectChildren(funcDecl)
+	caseOperands := make(map[ast.Node]bool)
+	for _, switchStmt := range switchChildren {
+		if switchStmt.Tag == nil {
+			continue
+		}
+		for _, stmt := range switchStmt.Body.List {
+			if clause, ok := stmt.(*ast.CaseClause); ok {
+				for _, expr := range clause.List {
+					caseOperands[expr] = true
+				}
+			}
+		}
+	}
 	for _, block := range graph.Blocks {
-		if block.Live {
+		if n := len(block.Nodes); block.Live && !(n > 0 && caseOperands[block.Nodes[n-1]]) {
 			p.canonicalizeConditional(graph, block)
 		}
 	}
@@ -92,8 +110,7 @@ func (p *Preprocessor) CFG(graph *cfg.CFG, funcDecl *ast.FuncDecl) *cfg.CFG {
 	// *ast.SwitchStmt, and *ast.TypeSwitchStmt by iterating through all blocks. This requires
 	// knowing the links between the nodes contained within a block to their parents
 	// (*ast.RangeStmt, *ast.SwitchStmt, or *ast.TypeSwitchStmt nodes).
-	// So, here establish the link and then do the work.
-	rangeChildren, switchChildren, typeSwitchChildren := collectChildren(funcDecl)
+	// The links have been established above (collectChildren), so here we do the work.
 	markRangeStatements(graph, rangeChildren)
 	markSwitchStatements(graph, switchChildren)
 	p.markTypeSwitchStatements(graph, typeSwitchChildren)
